@@ -55,29 +55,42 @@ def shlBoxed (a : List Nat) (k : Nat) : List Nat :=
   let w := 64 * a.length
   toWords a.length (if k < w then (CB.val a * 2 ^ k) % 2 ^ w else 0)
 
-/-- `impl Gcd for BoxedUint :: gcd` (release-profile behaviour; the overflow-checking profile
-    additionally `debug_assert`s equal precisions in `ct_select`). `none` = panic. -/
-def boxedGcd (a b : List Nat) : Option (List Nat) :=
+/-- `safegcd::boxed::gcd(f, g)` result → `BoxedUint`: `to_uint(f.bits_precision())` asserts
+    non-negativity (always) and, with debug assertions (`dbg`), that the unsaturated limb count —
+    computed from `max(f.nlimbs(), g.nlimbs())` — is the one of `f`'s precision
+    (boxed.rs:321; `safegcd_nlimbs!` is strictly increasing in the limb count, so this is `g` not
+    longer than `f`). `none` = panic. -/
+def boxedOddGcdD (dbg vartime : Bool) (f g : List Nat) : Option (List Nat) :=
+  let r := CB.SafeGcd.gcdBoxed vartime f g
+  if dbg && CB.SafeGcd.nlimbsFor (max f.length g.length * 64) != CB.SafeGcd.nlimbsFor (f.length * 64) then none
+  else if r.negative then none else some r.value
+
+/-- `impl Gcd for BoxedUint :: gcd`; `dbg` = the build has debug assertions: `ct_select` then
+    `debug_assert_eq!`s equal precisions (ct.rs:11). `none` = panic. -/
+def boxedGcdD (dbg : Bool) (a b : List Nat) : Option (List Nat) :=
   let k1 := tz (64 * a.length) (CB.val a)
   let k2 := tz (64 * b.length) (CB.val b)
   let k := if k2 < k1 then k2 else k1
   let s1 := shrBoxed a k
   let s2 := shrBoxed b k
   let s2odd := decide (s2.headD 0 % 2 = 1)
+  if dbg && a.length != b.length then none else
   match ctSelectBoxed s1 s2 (!s2odd), ctSelectBoxed s1 s2 s2odd with
   | some f, some g =>
-    let r := CB.SafeGcd.gcdBoxed false f g
-    if r.negative then none else some (shlBoxed r.value k)
+    match boxedOddGcdD dbg false f g with
+    | some r => some (shlBoxed r k)
+    | none => none
   | _, _ => none
 
-/-- `Odd<BoxedUint>::gcd(_vartime)` = `safegcd::boxed::gcd(_vartime)`. -/
-def boxedOddGcd (vartime : Bool) (f g : List Nat) : Option (List Nat) :=
-  let r := CB.SafeGcd.gcdBoxed vartime f g
-  if r.negative then none else some r.value
-
 /-- `BoxedUint::gcd_vartime`. -/
-def boxedGcdVartime (a b : List Nat) : Option (List Nat) :=
-  if a.headD 0 % 2 = 1 then boxedOddGcd true a b else boxedGcd a b
+def boxedGcdVartimeD (dbg : Bool) (a b : List Nat) : Option (List Nat) :=
+  if a.headD 0 % 2 = 1 then boxedOddGcdD dbg true a b else boxedGcdD dbg a b
+
+/-- release-profile forms -/
+def boxedGcd (a b : List Nat) : Option (List Nat) := boxedGcdD false a b
+/-- `Odd<BoxedUint>::gcd(_vartime)` = `safegcd::boxed::gcd(_vartime)`. -/
+def boxedOddGcd (vartime : Bool) (f g : List Nat) : Option (List Nat) := boxedOddGcdD false vartime f g
+def boxedGcdVartime (a b : List Nat) : Option (List Nat) := boxedGcdVartimeD false a b
 
 /-! ### L0: what the property demands -/
 
